@@ -276,4 +276,13 @@ theorem C11_sites_reach_the_interpreter_partial (j : Interp.J) :
   exact Interp.run_handles_all j _ (Interp.runOld_eq_run j hn)
 
 
+/-- the pre-pass of fix d3d169e (`_eval_inlining_site_calls`; `Interp.J.inlineCalls`): splicing the bodies of nested
+    jit / checkpoint calls in place of the calls leaves no such call in front of a site, keeps every site, once, in
+    order, and does not change which sites reach the interpreter and which are lost -/
+theorem C11_inline_prepass_transparent (j : Interp.J) :
+    j.inlineCalls.siteInline = false ∧ j.inlineCalls.sites = j.sites ∧
+    Interp.runOld j.inlineCalls = Interp.runOld j :=
+  ⟨Interp.noInline_siteInline _ (Interp.inlineCalls_noInline j), Interp.inlineCalls_sites j,
+   Interp.inlineCalls_runOld j⟩
+
 end Genjax.Adev
